@@ -104,6 +104,10 @@ struct FindFn {
 
 impl FindFn {
     fn find_regex_in_str(value: &str, regex: &ValueRegex, offset: usize) -> Option<usize> {
+        // `Regex::find_at` panics when the start offset lies beyond the haystack.
+        if offset > value.len() {
+            return None;
+        }
         regex.find_at(value, offset).map(|found| found.start())
     }
 
